@@ -150,12 +150,283 @@ def _install_validator_monitor():
     ValidatorMonitor(on_verdict).install()
 
 
-def pytest_configure(config):
-    _install()
+def _where():
+    return os.environ.get("PYTEST_CURRENT_TEST", "?")
+
+
+def _violation(key, detail):
+    if len(STATE["violations"]) < 80:
+        detail = dict(detail)
+        detail["where"] = _where()
+        STATE["violations"].append([key, detail])
+
+
+def _guard(fn):
+    """run a monitor's own checking code; whatever goes wrong in it is the monitor's problem, never the test's"""
     try:
-        _install_validator_monitor()
+        fn()
     except Exception as exc:
-        STATE["monitor_errors"].append(repr(exc)[:300])
+        if len(STATE["monitor_errors"]) < 20:
+            STATE["monitor_errors"].append(repr(exc)[:300])
+
+
+def _install_region_monitor():
+    """C16 / C17 on every AudioRegion operation the repository's tests perform (keys region-slice:* and region-algebra:*)."""
+    cls = _core.AudioRegion
+    STATE.update({"region_slices_checked": 0, "region_concats_checked": 0, "region_repeats_checked": 0, "region_divisions_checked": 0,
+                  "region_equalities_checked": 0})
+    o_get, o_add, o_mul, o_div, o_eq = cls.__getitem__, cls.__add__, cls.__mul__, cls.__truediv__, cls.__eq__
+
+    def params(r):
+        return (r.sampling_rate, r.sample_width, r.channels)
+
+    def __getitem__(self, index):
+        r = o_get(self, index)
+
+        def chk():
+            if isinstance(index, slice) and index.step is None and all(b is None or type(b) is int for b in (index.start, index.stop)):
+                fr = self.sample_width * self.channels
+                a, b, _ = index.indices(len(self.data) // fr)
+                exp = bytes(self.data[a * fr:max(a, b) * fr])
+                STATE["region_slices_checked"] += 1
+                if bytes(r.data) != exp or params(r) != params(self):
+                    _violation("region-slice:differs-from-python-slice", {"index": repr(index), "n_samples": len(self.data) // fr, "params": params(self),
+                                                                          "got_len": len(r.data), "expected_len": len(exp)})
+
+        _guard(chk)
+        return r
+
+    def __add__(self, other):
+        before = (bytes(self.data), bytes(other.data) if isinstance(other, cls) else None)
+        r = o_add(self, other)
+
+        def chk():
+            if isinstance(other, cls) and isinstance(r, cls):
+                STATE["region_concats_checked"] += 1
+                if params(self) != params(other):
+                    _violation("region-algebra:concatenation-of-different-parameters-produced-data", {"a": params(self), "b": params(other)})
+                elif bytes(r.data) != before[0] + before[1] or params(r) != params(self):
+                    _violation("region-algebra:concatenation-not-byte-exact", {"a_len": len(before[0]), "b_len": len(before[1]), "got_len": len(r.data)})
+                if (bytes(self.data), bytes(other.data)) != before:
+                    _violation("region-algebra:operand-altered", {"op": "+"})
+
+        _guard(chk)
+        return r
+
+    def __mul__(self, n):
+        before = bytes(self.data)
+        r = o_mul(self, n)
+
+        def chk():
+            if type(n) is int and isinstance(r, cls):
+                STATE["region_repeats_checked"] += 1
+                if bytes(r.data) != before * n or params(r) != params(self) or bytes(self.data) != before:
+                    _violation("region-algebra:repetition-not-byte-exact", {"n": n, "len": len(before), "got_len": len(r.data)})
+
+        _guard(chk)
+        return r
+
+    def __truediv__(self, n):
+        before = bytes(self.data)
+        r = o_div(self, n)
+
+        def chk():
+            if type(n) is int and n >= 1 and isinstance(r, list) and before:
+                STATE["region_divisions_checked"] += 1
+                fr = self.sample_width * self.channels
+                lens = [len(x.data) // fr for x in r]
+                if (b"".join(bytes(x.data) for x in r) != before or len(r) != min(n, len(before) // fr) or max(lens) - min(lens) > 1
+                        or any(params(x) != params(self) for x in r) or bytes(self.data) != before):
+                    _violation("region-algebra:division-wrong", {"n": n, "n_samples": len(before) // fr, "piece_lengths": lens[:50]})
+
+        _guard(chk)
+        return r
+
+    def __eq__(self, other):
+        r = o_eq(self, other)
+
+        def chk():
+            if isinstance(other, cls) and isinstance(r, bool):
+                STATE["region_equalities_checked"] += 1
+                exp = bytes(self.data) == bytes(other.data) and params(self) == params(other)
+                if r != exp:
+                    _violation("region-algebra:equality-wrong", {"got": r, "expected": exp, "a": params(self), "b": params(other)})
+
+        _guard(chk)
+        return r
+
+    cls.__getitem__, cls.__add__, cls.__mul__, cls.__truediv__, cls.__eq__ = __getitem__, __add__, __mul__, __truediv__, __eq__
+
+
+def _install_source_monitor():
+    """C11's local clauses on every read() the repository's tests perform on a buffer / raw / wave source (keys source:*):
+    a chunk is never empty, holds whole samples, and never more than asked for; for the buffer source the chunk is the
+    underlying data at the position read back before the call, and position advances by the chunk."""
+    from auditok import io as _io
+
+    STATE.update({"source_reads_checked": 0, "source_reads_none": 0})
+
+    def wrap(cls, name):
+        o_read = cls.read
+
+        def read(self, size):
+            pos = None
+            try:
+                if name == "buffer":
+                    pos = self.position
+            except Exception:
+                pos = None
+            r = o_read(self, size)
+
+            def chk():
+                if r is None:
+                    STATE["source_reads_none"] += 1
+                    return
+                STATE["source_reads_checked"] += 1
+                fr = self.sample_width * self.channels
+                if len(r) == 0:
+                    _violation("source:empty-chunk-instead-of-None", {"kind": name, "size": repr(size)})
+                elif len(r) % fr:
+                    _violation("source:chunk-not-whole-samples", {"kind": name, "size": repr(size), "len": len(r), "frame": fr})
+                elif type(size) is int and size >= 0 and len(r) > size * fr:
+                    _violation("source:chunk-larger-than-requested", {"kind": name, "size": size, "len": len(r), "frame": fr})
+                if name == "buffer" and pos is not None and type(size) is int:
+                    data = bytes(self.data)
+                    want = data[pos * fr:] if size < 0 else data[pos * fr:(pos + size) * fr]
+                    if bytes(r) != want or self.position != pos + len(r) // fr:
+                        _violation("source:buffer-chunk-not-at-position", {"size": size, "position_before": pos, "position_after": self.position,
+                                                                           "len": len(r), "expected_len": len(want)})
+
+            _guard(chk)
+            return r
+
+        cls.read = read
+
+    wrap(_io.BufferAudioSource, "buffer")
+    wrap(_io.RawAudioSource, "raw")
+    wrap(_io.WaveAudioSource, "wave")
+
+
+def _install_reader_monitor():
+    """C10's local clauses on every AudioReader the repository's tests read (keys reader:*): every block has block_size
+    samples except the one directly before None; after None only None."""
+    from auditok import util as _util
+
+    STATE.update({"reader_blocks_checked": 0, "reader_streams_ended": 0})
+    cls = _util.AudioReader
+    o_read = cls.read
+
+    def read(self):
+        r = o_read(self)
+
+        def chk():
+            st = self.__dict__.setdefault("_vf_reader_state", {"short": False, "ended": False})
+            fr = self.sample_width * self.channels
+            if r is None:
+                if not st["ended"]:
+                    STATE["reader_streams_ended"] += 1
+                st["ended"] = True
+                st["short"] = False
+                return
+            STATE["reader_blocks_checked"] += 1
+            if st["ended"]:
+                _violation("reader:block-after-None", {"len": len(r)})
+            if st["short"]:
+                _violation("reader:short-block-not-last", {"len": len(r), "block_size": self.block_size})
+            if len(r) == 0 or len(r) % fr or len(r) > self.block_size * fr:
+                _violation("reader:block-size-wrong", {"len": len(r), "block_size": self.block_size, "frame": fr})
+            st["short"] = len(r) < self.block_size * fr
+
+        _guard(chk)
+        return r
+
+    # rewind / open / close reach the inner readers through AudioReader.__getattr__: looking one of them up starts a new pass
+    # (resetting too often only loses checks, it never raises an alarm)
+    o_getattr = cls.__getattr__
+
+    def __getattr__(self, name):
+        if name in ("rewind", "open", "close"):
+            self.__dict__.pop("_vf_reader_state", None)
+        return o_getattr(self, name)
+
+    cls.read = read
+    cls.__getattr__ = __getattr__
+
+
+def _install_split_monitor():
+    """C05's own-bytes clause on every split() of a bytes object or an AudioRegion the repository's tests perform (keys split:*)."""
+    STATE.update({"split_calls_checked": 0, "split_regions_checked": 0})
+    o_split = _core.split
+
+    def split(input, *a, **kw):
+        out = o_split(input, *a, **kw)
+        src = None
+        try:
+            if isinstance(input, _core.AudioRegion):
+                src = (bytes(input.data), input.sampling_rate, input.sample_width, input.channels)
+            elif isinstance(input, bytes):
+                g = lambda *names: next((kw[n] for n in names if n in kw), None)
+                src = (input, g("sampling_rate", "sr"), g("sample_width", "sw"), g("channels", "ch"))
+                if None in src:
+                    src = None
+            if kw.get("max_read", kw.get("mr")) is not None:
+                src = None
+        except Exception:
+            src = None
+        if src is None:
+            return out
+        STATE["split_calls_checked"] += 1
+        data, sr, sw, ch = src
+        state = {"prev_end": 0}
+
+        def check(r):
+            def chk():
+                STATE["split_regions_checked"] += 1
+                fr = sw * ch
+                a0 = round(r.start * sr)
+                if abs(a0 - r.start * sr) > 1e-6 or bytes(r.data) != data[a0 * fr:a0 * fr + len(r.data)] or len(r.data) % fr:
+                    _violation("split:region-bytes-differ-from-input-at-reported-time", {"start": r.start, "len": len(r.data), "params": [sr, sw, ch]})
+                if (r.sampling_rate, r.sample_width, r.channels) != (sr, sw, ch):
+                    _violation("split:region-parameters-differ-from-input", {"got": [r.sampling_rate, r.sample_width, r.channels], "params": [sr, sw, ch]})
+                if a0 < state["prev_end"]:
+                    _violation("split:regions-overlap-or-out-of-order", {"start_sample": a0, "previous_end_sample": state["prev_end"]})
+                if abs((r.end - r.start) - r.duration) > 1e-9 or abs(r.duration - (len(r.data) // fr) / sr) > 1e-9:
+                    _violation("split:times-inconsistent", {"start": r.start, "end": r.end, "duration": r.duration, "samples": len(r.data) // fr})
+                state["prev_end"] = a0 + len(r.data) // fr
+
+            _guard(chk)
+
+        if isinstance(out, list):
+            for r in out:
+                check(r)
+            return out
+
+        def gen():
+            for r in out:
+                check(r)
+                yield r
+
+        return gen()
+
+    _core.split = split
+    import auditok
+
+    if getattr(auditok, "split", None) is o_split:
+        auditok.split = split
+
+
+MONITORS = {"tokenizer": _install, "validator": _install_validator_monitor, "region": _install_region_monitor,
+            "source": _install_source_monitor, "reader": _install_reader_monitor, "split": _install_split_monitor}
+
+
+def pytest_configure(config):
+    wanted = [m for m in os.environ.get("VF_PLUGIN_MONITORS", "tokenizer,validator").split(",") if m]
+    STATE["monitors"] = wanted
+    for name in wanted:
+        try:
+            MONITORS[name]()
+        except Exception as exc:
+            STATE["monitor_errors"].append(name + ": " + repr(exc)[:300])
 
 
 def pytest_sessionfinish(session, exitstatus):
